@@ -100,6 +100,8 @@ pub enum Cmd {
     ProcSrc(usize, i64),
     ReadSink(usize),
     SinkOpen(usize, bool),
+    /// a scheduling request issued from another thread, gated inside Deadline::into_time, racing with step()
+    Race(u8, i64, usize, usize, i64),
 }
 pub struct Case {
     threads: usize,
@@ -307,6 +309,14 @@ impl<'a> P<'a> {
                 let o = self.int() == 1;
                 Cmd::SinkOpen(k, o)
             }
+            "rc" => {
+                let kind = self.int() as u8;
+                let t = self.int();
+                let m = self.us();
+                let i = self.us();
+                let v = self.int();
+                Cmd::Race(kind, t, m, i, v)
+            }
             t => panic!("cmd {}", t),
         }
     }
@@ -372,6 +382,23 @@ fn ns(t: MonotonicTime) -> i128 {
 }
 
 pub struct PanicCode(pub i64);
+
+/// A deadline whose `into_time` tells the main thread that it was entered and then waits (bounded)
+/// for it to finish a `step()`.  The schedule_* functions must evaluate the deadline and read the
+/// current time while holding the queue lock; if they do, `step()` cannot make progress while the
+/// request is parked here, and the request is serialised before the step.
+pub struct Gated {
+    t: MonotonicTime,
+    entered: std::sync::mpsc::Sender<()>,
+    resume: std::sync::mpsc::Receiver<()>,
+}
+impl nexosim::time::Deadline for Gated {
+    fn into_time(self, _now: MonotonicTime) -> MonotonicTime {
+        let _ = self.entered.send(());
+        let _ = self.resume.recv_timeout(Duration::from_millis(250));
+        self.t
+    }
+}
 
 pub static SM_DROPS: std::sync::atomic::AtomicUsize = std::sync::atomic::AtomicUsize::new(0);
 impl Drop for SM {
@@ -1001,6 +1028,36 @@ pub fn run(case: &Case) -> String {
                     SinkK::Slot(s) => s.next().map(|x| vec![x.to_string()]).unwrap_or_default(),
                 };
                 format!("sink:{}", vals.join(","))
+            }
+            Cmd::Race(kind, t, m, i, v) => {
+                let (etx, erx) = std::sync::mpsc::channel();
+                let (rtx, rrx) = std::sync::mpsc::channel();
+                let g = Gated { t: mt(*t), entered: etx, resume: rrx };
+                let sched2 = sched.clone();
+                let addr = addrs[*m].clone();
+                let (kind, i, v) = (*kind, *i, *v);
+                let th = std::thread::spawn(move || -> u8 {
+                    macro_rules! go {
+                        ($f:path) => {
+                            match kind {
+                                0 => sched_code(&sched2.schedule_event(g, $f, v, &addr)),
+                                1 => sched_code(&sched2.schedule_keyed_event(g, $f, v, &addr).map(|_| ())),
+                                2 => sched_code(&sched2.schedule_periodic_event(g, Duration::from_nanos(1000), $f, v, &addr)),
+                                _ => sched_code(&sched2.schedule_keyed_periodic_event(g, Duration::from_nanos(1000), $f, v, &addr).map(|_| ())),
+                            }
+                        };
+                    }
+                    by_input!(i, go)
+                });
+                // wait until the request is inside into_time, then step
+                let _ = erx.recv_timeout(Duration::from_millis(2000));
+                let sr = match simu.step() {
+                    Ok(()) => "ok".to_string(),
+                    Err(e) => err_str(e),
+                };
+                let _ = rtx.send(());
+                let code = th.join().unwrap_or(9);
+                format!("race:{}:{}", code, sr)
             }
             Cmd::SinkOpen(k, o) => {
                 use nexosim::ports::EventSinkStream;
